@@ -24,14 +24,16 @@ CTX_BASE = 100000     # ids of Task objects created by insert_context inside a b
 DRIVER = "drv_c17"
 LEAN_TARGETS = ["PharmpyProofs.C17.Properties", "drv_c17"]
 PROPERTIES = ["PharmpyProofs/C17/Properties.lean"]
-LEAN_SOURCES = ["PharmpyModel/C17/*.lean", "PharmpyProofs/C17/*.lean", "Drivers/C17.lean"]
+LEAN_SOURCES = ["PharmpyModel/C17/*.lean", "PharmpyModel/Generated/C17Task.lean", "PharmpyProofs/C17/*.lean", "Drivers/C17.lean"]
 TIME_LIMIT = {"quick": 900, "thorough": 3000}
 CASE_CPU_LIMIT = 30
 RULE = ("seeded programs of builder operations (new/tasks=, add_task with 0-3 predecessors in random order, "
         "replace_task, insert_workflow with None/explicit predecessors incl. N:N, 1:N, N:1, N:M, "
         "+, Workflow()/WorkflowBuilder() copies, reading input_tasks/output_tasks between steps, "
         "add_task(t, predecessors=wb.output_tasks), insert_context on the builder mid-history, and the history "
-        "'read outputs; replace an output task / insert_context; compose again') building a workflow of <= 12 tasks (quick) / <= 30 (thorough), "
+        "'read outputs; replace an output task / insert_context; compose again'; in half of the cases 15-30% of the "
+        "added tasks are DISTINCT Task objects equal by value (same name, same function object, equal static inputs) "
+        "to an earlier task, and sub-workflow recipes are instantiated again with value-twin tasks) building a workflow of <= 12 tasks (quick) / <= 30 (thorough), "
         "usually closed with one sink; task i returns the term 't<i>(args)' so the result spells the whole "
         "evaluation; ~35% of tasks take `context`; a few static inputs are dask graph literals ('results', "
         "(callable, ...), lists of those). Each workflow is executed through execute_workflow with "
@@ -48,10 +50,16 @@ TRUSTED = [
     "the distributed dispatcher (LocalCluster/Client.get, optimize_task_graph_for_dask_distributed) is outside: no cluster here",
 ]
 ASSUMPTIONS = [
-    "task functions are pure; Task objects compare by identity (nodes are numbered by the harness)",
+    "task functions are pure; tasks are identified by object identity (nodes are numbered by the harness; "
+    "checked against task.py on every run by translator T-C17-task-identity)",
     "uuid4 keys never collide and never equal a static input string; 'results' is the only nameable key",
     "the order in which predecessor tasks 'entered the workflow' is the node order of the Workflow passed to execute_workflow",
 ]
+
+
+def translators():
+    from harness.translate import c17_task
+    return [("T-C17-task-identity", c17_task.run)]
 
 
 def budget(tier):
@@ -90,11 +98,19 @@ def gen_case(rng: random.Random, tier: str):
     tasks = []
     counter = [0]
 
-    def new_task():
+    def new_task(twin_of=None):
+        """a new Task object; with twin_of: a DISTINCT object equal by value (same name, function, static inputs)"""
         i = len(tasks)
+        if twin_of is not None:
+            o = tasks[twin_of]
+            tasks.append([i, o[1], [x for x in o[2]], o[3] if len(o) > 3 else o[0]])
+            return i
         hz = hazard_case and rng.random() < 0.25
         tasks.append([i, rng.random() < pctx, gen_static(rng, hz, counter)])
         return i
+
+    ptwin = rng.choice([0.0, 0.0, 0.15, 0.3])      # how often a step re-uses the value of an earlier task
+    recipes = {}                                    # sub-builder -> (task ids, roots, [(index, [pred indices])])
 
     ops = []
     members = {0: []}            # builder -> task ids (approximate bookkeeping for choosing arguments)
@@ -105,6 +121,8 @@ def gen_case(rng: random.Random, tier: str):
         return rng.sample(pool, k)
 
     def build_sub(size):
+        if recipes and rng.random() < ptwin * 1.5:
+            return build_sub_again(rng.choice(sorted(recipes)))
         b = nb[0]
         nb[0] += 1
         ts = [new_task() for _ in range(size)]
@@ -115,8 +133,24 @@ def gen_case(rng: random.Random, tier: str):
             ops.append(["new", b])
             for t in ts[:nroots]:
                 ops.append(["add", b, t, None])
+        rec = []
         for j in range(nroots, size):
-            ops.append(["add", b, ts[j], pick_preds(ts[:j], 2)])
+            ps = pick_preds(ts[:j], 2)
+            rec.append((j, [ts.index(p) for p in ps]))
+            ops.append(["add", b, ts[j], ps])
+        members[b] = ts
+        recipes[b] = (ts, nroots, rec)
+        return b
+
+    def build_sub_again(b0):
+        """the sub-workflow 'factory' called a second time: same shape, every task a value-twin of the first instance"""
+        ts0, nroots, rec = recipes[b0]
+        b = nb[0]
+        nb[0] += 1
+        ts = [new_task(twin_of=t) for t in ts0]
+        ops.append(["newtasks", b, ts[:nroots]])
+        for j, pidx in rec:
+            ops.append(["add", b, ts[j], [ts[k] for k in pidx]])
         members[b] = ts
         return b
 
@@ -150,7 +184,7 @@ def gen_case(rng: random.Random, tier: str):
             continue
         r = rng.random()
         if r < 0.40 or not cur:
-            t = new_task()
+            t = new_task(twin_of=rng.choice(cur) if cur and rng.random() < ptwin else None)
             ps = pick_preds(cur)
             if wild and rng.random() < 0.3:
                 ps = ps + [rng.randrange(len(tasks))]
@@ -245,6 +279,16 @@ def corpus_cases():
         # the same with insert_context doing the replacement
         dict(base, tasks=[[0, False, []], [1, True, []], [2, False, []]],
              ops=[["new", 0], ["add", 0, 0, None], ["add", 0, 1, 0], ["read", 0], ["ctx", 0], ["addouts", 0, 2], ["read", 0]]),
+        # two DISTINCT tasks equal by value (same name, function, static input) on two branches
+        dict(base, tasks=[[0, False, [S("3")]], [1, False, [S("1")]], [2, False, [S("10")]], [3, False, [S("2")]],
+                          [4, False, [S("2")], 3], [5, False, []]],
+             ops=[["new", 0], ["add", 0, 0, None], ["add", 0, 1, [0]], ["add", 0, 2, [0]], ["add", 0, 3, [1]],
+                  ["add", 0, 4, [2]], ["add", 0, 5, [3, 4]]]),
+        # the same sub-workflow template instantiated twice and inserted after different predecessors
+        dict(base, tasks=[[0, False, [S("a")]], [1, False, [S("b")]], [2, False, [S("1")]], [3, False, []],
+                          [4, False, [S("1")], 2], [5, False, [], 3], [6, False, []]],
+             ops=[["newtasks", 0, [0, 1]], ["new", 1], ["add", 1, 2, None], ["add", 1, 3, 2], ["insert", 0, 1, [0]],
+                  ["new", 2], ["add", 2, 4, None], ["add", 2, 5, 4], ["insert", 0, 2, [1]], ["addouts", 0, 6]]),
         # two sinks: documented refusal
         dict(base, tasks=[[0, False, []], [1, False, []]], ops=[["newtasks", 0, [0, 1]]]),
     ]
@@ -318,8 +362,10 @@ class World:
         self.task = {}
         self.ident = {}
         self.spec = {t[0]: t for t in case["tasks"]}
-        for i, ctx, static in case["tasks"]:
-            self._make(i, ctx, static)
+        self.name = {}               # task id -> name number (tasks that are equal by value share it)
+        self.fns = {}                # name number -> the ONE function object of that value class
+        for t in case["tasks"]:
+            self._make(t[0], t[1], t[2], t[3] if len(t) > 3 else t[0])
 
     def g(self, j):
         if j not in self.gs:
@@ -344,24 +390,30 @@ class World:
             return [self.py_atom(a) for a in s[1:]]
         return self.py_atom(s)
 
-    def _make(self, i, ctx, static):
+    def _make(self, i, ctx, static, vk=None):
+        """Task object number i.  Tasks with the same value key vk are DISTINCT objects with the same
+        name, the same function object and equal static inputs (equal by value, different by identity)."""
         world = self
-        if ctx:
-            def f(context, *a, _i=i):
-                if world.delay is not None:
-                    time.sleep(world.delay.random() * 0.003)
-                world.log.append(_i)
-                return f"t{_i}(" + ",".join(render(x) for x in (context,) + a) + ")"
-        else:
-            def f(*a, _i=i):
-                if world.delay is not None:
-                    time.sleep(world.delay.random() * 0.003)
-                world.log.append(_i)
-                return f"t{_i}(" + ",".join(render(x) for x in a) + ")"
-        f.__name__ = f"t{i}"
-        t = Task(f"t{i}", f, *[self.py_static(s) for s in static])
+        vk = i if vk is None else vk
+        if vk not in self.fns:
+            if ctx:
+                def f(context, *a, _i=vk):
+                    if world.delay is not None:
+                        time.sleep(world.delay.random() * 0.003)
+                    world.log.append(_i)
+                    return f"t{_i}(" + ",".join(render(x) for x in (context,) + a) + ")"
+            else:
+                def f(*a, _i=vk):
+                    if world.delay is not None:
+                        time.sleep(world.delay.random() * 0.003)
+                    world.log.append(_i)
+                    return f"t{_i}(" + ",".join(render(x) for x in a) + ")"
+            f.__name__ = f"t{vk}"
+            self.fns[vk] = f
+        t = Task(f"t{vk}", self.fns[vk], *[self.py_static(s) for s in static])
         self.task[i] = t
         self.ident[id(t)] = i
+        self.name[i] = vk
 
     def tid(self, t):
         """id of a Task object; an object the harness never saw is shown by name (then K/monitors disagree, no crash)"""
@@ -552,7 +604,7 @@ def S(x):
 
 
 def wire_tasks(case):
-    return [[i, bool(c), st] for i, c, st in case["tasks"]]
+    return [[t[0], bool(t[1]), t[2], t[3] if len(t) > 3 else t[0]] for t in case["tasks"]]
 
 
 def wire_ops(ops):
@@ -602,7 +654,7 @@ def _run_case(case, drv):
 
     def nm(i):
         """name (= id of the original user task) of a task id"""
-        return extra[i][3] if i in extra else i
+        return extra[i][3] if i in extra else world.name[i]
 
     def resolve(b, x):
         m = alias.get(b, {})
@@ -707,8 +759,6 @@ def _run_case(case, drv):
     def monitor_op(op, before, other, before_dump, other_dump, after_dump, err, ren):
         kind = op[0]
         n, e, e_p = sets_of(after_dump)
-        if e != e_p:
-            mon.append({"cls": "builder-adjacency-inconsistent", "what": f"after {op}: successors and predecessors disagree"})
         border = before_dump[0]
         oorder = other_dump[0] if other_dump is not None else []
         xn, xe, refused, tag = declared_after(op, before[0], before[1], other[0], other[1], border, oorder, ren)
@@ -729,6 +779,8 @@ def _run_case(case, drv):
         if (n, e) != (xn, xe):
             mon.append({"cls": OPCLS[kind], "what": f"after {op}: tasks {sorted(n)} edges {sorted(e)}; declared tasks "
                                                     f"{sorted(xn)} edges {sorted(xe)}"})
+        if e != e_p:
+            mon.append({"cls": "builder-adjacency-inconsistent", "what": f"after {op}: successors {sorted(e)} and predecessors {sorted(e_p)} disagree"})
 
     def advance_declared(op, before_dump, other_dump, ren):
         """the same reference semantics applied to the DECLARED state (not to what the code produced so far)"""
@@ -927,12 +979,17 @@ def _run_case(case, drv):
                 mon.append({"cls": cls, "what": f"[{sched}] execute_workflow gave {res}, sequential topological "
                                                 f"evaluation gives {ref!r}"})
             if res[0] == "ok":
-                counts = {nm(t): log.count(nm(t)) for t in wnodes}
-                if any(c != 1 for c in counts.values()) or len(log) != len(wnodes):
-                    mon.append({"cls": "call-count", "what": f"[{sched}] calls per declared task {counts}, call log {log} "
-                                                             f"(every declared task exactly once, nothing else)"})
+                mult = {}
+                for t in wnodes:
+                    mult[nm(t)] = mult.get(nm(t), 0) + 1
+                counts = {n_: log.count(n_) for n_ in mult}
+                if counts != mult or len(log) != len(wnodes):
+                    mon.append({"cls": "call-count", "what": f"[{sched}] calls per task name {counts}, declared tasks per name "
+                                                             f"{mult}, call log {log} (every declared task exactly once, nothing else)"})
                 at = {t: j for j, t in enumerate(log)}
                 for t in wnodes:
+                    if mult[nm(t)] != 1 or any(mult[nm(p)] != 1 for p in wpreds[t]):
+                        continue                     # tasks equal by value are indistinguishable in the call log
                     if any(at.get(nm(p), 1 << 30) > at.get(nm(t), -1) for p in wpreds[t]) and nm(t) in at:
                         mon.append({"cls": "ran-before-predecessor", "what": f"[{sched}] task {nm(t)} ran at {at[nm(t)]} before a predecessor; log {log}"})
                         break
@@ -982,16 +1039,18 @@ def _run_case(case, drv):
         if problems:
             mon.append({"cls": "dask-dict-unfaithful", "what": problems})
         # insert_context: exactly the context-taking tasks got the context prepended, same tasks and edges otherwise
-        n0 = {nm(t): spec[t] for t in wnodes}
-        for t in wf2.tasks:
-            i = name_id(t)
-            if i not in n0:
-                mon.append({"cls": "insert-context", "what": f"task {i} appeared"})
-                break
-            want = ([ctx] if n0[i][1] else []) + [world.py_static(s) for s in n0[i][2]]
-            if list(t.task_input) != want:
-                mon.append({"cls": "insert-context", "what": f"task {i}: task_input {t.task_input!r}, declared {want!r}"})
-                break
+        def shape(name, inputs):
+            out = []
+            for x in inputs:
+                try:
+                    out.append(S(world.wire_static(x)))
+                except Exception:
+                    out.append(["?", repr(x)])
+            return repr([name, out])
+        got = sorted(shape(name_id(t), t.task_input) for t in wf2.tasks)
+        want = sorted(shape(nm(t), ([ctx] if spec[t][1] else []) + [world.py_static(s_) for s_ in spec[t][2]]) for t in wnodes)
+        if got != want:
+            mon.append({"cls": "insert-context", "what": f"tasks (name, input) after insert_context {got}, declared {want}"})
         e2 = {(name_id(p), name_id(t)) for t in wf2.tasks for p in wf2.get_predecessors(t)}
         e0 = {(nm(p), nm(t)) for t in wnodes for p in wpreds[t]}
         if e2 != e0 or sorted(name_id(t) for t in wf2.tasks) != sorted(nm(t) for t in wnodes):
@@ -999,10 +1058,27 @@ def _run_case(case, drv):
     return {"k": k, "mon": mon, "tags": tags, "nontrivial": nontrivial}
 
 
+def _split(candidates, args, dsk):
+    fits = []
+    for ti in candidates:
+        n = len(ti)
+        if n <= len(args) and all(x is y or x == y for x, y in zip(args[:n], ti)) and \
+                all(isinstance(x, str) and x in dsk for x in args[n:]):
+            fits.append(n)
+    return max(fits) if fits else 0
+
+
 def canon_dict(dsk, wf, world):
     """dask dict -> sorted [[key, fn, [static...], [pred keys...]]] with keys canonicalised to task names.
     Total: anything unexpected is kept as a marked repr so that it shows up as a disagreement, not a crash."""
-    by_name = {t.name: t for t in wf.tasks}
+    inputs_of = {}
+    for t in wf.tasks:
+        inputs_of.setdefault(t.name, []).append(tuple(t.task_input))
+
+    def split(name, args):
+        """number of static inputs of a dict value: that of a task of this name whose task_input is the prefix of
+        the arguments and after which only keys follow (tasks of one name may differ in arity after insert_context)"""
+        return _split(inputs_of.get(name, []), args, dsk)
 
     def ck(key):
         if key == "results":
@@ -1021,8 +1097,7 @@ def canon_dict(dsk, wf, world):
     for key, val in dsk.items():
         fn = val[0]
         name = getattr(fn, "__name__", "?")
-        t = by_name.get(name)
-        ns = len(t.task_input) if t is not None else 0
+        ns = split(name, list(val[1:]))
         static = [ws(x) for x in val[1:1 + ns]]
         preds = [ck(x) for x in val[1 + ns:]]
         out.append([ck(key), name[1:], static, preds])
@@ -1030,23 +1105,60 @@ def canon_dict(dsk, wf, world):
 
 
 def check_dict(wf, dsk):
-    """dask_dict_faithful on the real dict: unique keys, sink is 'results', value = (function, *static, *pred keys)."""
-    if len(dsk) != len(wf.tasks):
-        return f"{len(dsk)} keys for {len(wf.tasks)} tasks"
+    """dask_dict_faithful on the real dict: one key per task, the output task's key is 'results', every value is
+    (function, *static inputs, *keys of the predecessors in predecessor order).  Tasks may be equal by value
+    (same name, function, static inputs), so keys and tasks are matched through their unfolded terms
+    fn(static…, term(pred)…): the multisets of terms must coincide and 'results' must unfold to the sink's term."""
+    tasks = wf.tasks
+    if len(dsk) != len(tasks):
+        return f"{len(dsk)} keys for {len(tasks)} tasks"
     if "results" not in dsk:
         return "no 'results' key"
-    key_of = {}
-    for key, val in dsk.items():
-        owners = [t for t in wf.tasks if t.function is val[0]]
-        if len(owners) != 1:
-            return f"key {key}: function belongs to {len(owners)} tasks"
-        key_of[id(owners[0])] = key
-    sink = wf.output_tasks[0]
-    if key_of[id(sink)] != "results":
+    by_id = {id(t): t for t in tasks}
+
+    def unfold(node, succ, memo, stack):
+        if node in memo:
+            return memo[node]
+        if node in stack:
+            raise RecursionError("cycle")
+        stack.add(node)
+        fn, static, preds = succ(node)
+        r = f"{getattr(fn, '__name__', fn)}@{id(fn)}(" + ",".join([repr(x) for x in static] + [unfold(p, succ, memo, stack) for p in preds]) + ")"
+        stack.discard(node)
+        memo[node] = r
+        return r
+
+    def task_parts(tid_):
+        t = by_id[tid_]
+        return t.function, list(t.task_input), [id(p) for p in wf.get_predecessors(t)]
+
+    try:
+        tmemo = {}
+        task_terms = {id(t): unfold(id(t), task_parts, tmemo, set()) for t in tasks}
+    except RecursionError:
+        return None                                  # cyclic workflow: nothing to unfold
+    # keys: the number of static inputs of a key is that of any task with the same function (equal for value-equal tasks)
+    nstatic = {}
+    for t in tasks:
+        nstatic.setdefault(id(t.function), []).append(tuple(t.task_input))
+
+    def key_parts2(key):
+        val = dsk[key]
+        args = list(val[1:])
+        if id(val[0]) not in nstatic:
+            raise KeyError(key)
+        n = _split(nstatic[id(val[0])], args, dsk)
+        return val[0], args[:n], args[n:]
+    try:
+        kmemo = {}
+        key_terms = {k: unfold(k, key_parts2, kmemo, set()) for k in dsk}
+    except (RecursionError, KeyError) as e:
+        return f"dict does not unfold: {type(e).__name__} {e}"
+    if sorted(key_terms.values()) != sorted(task_terms.values()):
+        extra = sorted(set(key_terms.values()) - set(task_terms.values()))[:2]
+        missing = sorted(set(task_terms.values()) - set(key_terms.values()))[:2]
+        return f"dict entries and tasks differ: entries without task {extra}, tasks without entry {missing}"
+    sinks = [t for t in tasks if not wf.get_successors(t)]
+    if len(sinks) == 1 and key_terms["results"] != task_terms[id(sinks[0])]:
         return "the output task's key is not 'results'"
-    for t in wf.tasks:
-        val = dsk[key_of[id(t)]]
-        want = (t.function, *t.task_input, *[key_of[id(p)] for p in wf.get_predecessors(t)])
-        if len(val) != len(want) or any(a is not b and a != b for a, b in zip(val, want)):
-            return f"value of {t.name} is {val!r}, expected {want!r}"
     return None
